@@ -34,6 +34,11 @@ fn std_scenario(seed: u64, params: &GenParams, force_async: Option<bool>) -> Sce
     sc.activity = gen_activity(&mut cr);
     sc.hash_salt = Rng::stream(seed, "hash_salt").next_u64();
     twin_candidates(seed, &mut sc.world, 5);
+    // a provider whose ranking depends on the slice it is asked to sort, on one seed in ten
+    let mut ar = Rng::stream(seed, "slice-dependent-ranking");
+    if ar.chance(1, 10) {
+        crate::gen::slice_dependent_ranking(&mut ar, &mut sc.world);
+    }
     // opaque handles (version sets, unions, strings) spread over the whole u32 range on one seed in eight
     let mut hr = Rng::stream(seed, "huge-ids");
     if hr.chance(1, 8) {
